@@ -39,5 +39,16 @@ Boxes(notes, cfg, n) ==
 InBox(x, y, b) == x >= b.x0 /\ x < b.x0 + b.w /\ y >= b.y0 /\ y < b.y0 + b.h
 OnCanvas(notes, cfg, x, y) == x >= 0 /\ x < CanvasW(notes, cfg) /\ y >= 0 /\ y < CanvasH(notes, cfg)
 Pixels(notes, cfg, b) == { <<x, y>> \in (b.x0..(b.x0 + b.w - 1)) \X (b.y0..(b.y0 + b.h - 1)) : OnCanvas(notes, cfg, x, y) }
+(* export_fold(max_height, stage_line_width): the tall image cut from the bottom into stages of max_height rows, laid side *)
+(* by side with a separator line: stage i shows rows H - max(i+1) .. H - max*i - 1 of the tall image (rows above the top   *)
+(* of the image are blank) at x-offset i * (W + line).                                                                     *)
+FoldStages(H, mx) == H \div mx + 1
+FoldW(W, H, mx, line) == FoldStages(H, mx) * W + (FoldStages(H, mx) - 1) * line
+(* the tall-image pixel shown at (x, y) of the folded image, or <<>> on a separator / blank part *)
+FoldSource(W, H, mx, line, x, y) ==
+    LET i == x \div (W + line)
+        xx == x % (W + line)
+        yy == H - mx * (i + 1) + y IN
+    IF xx >= W \/ yy < 0 \/ yy >= H THEN <<>> ELSE <<xx, yy>>
 Inside(notes, cfg, b) == b.x0 >= 0 /\ b.y0 >= 0 /\ b.x0 + b.w <= CanvasW(notes, cfg) /\ b.y0 + b.h <= CanvasH(notes, cfg)
 =============================================================================
